@@ -60,6 +60,7 @@ type errClass struct {
 	IsUEOF bool
 	Pos    string
 	From   string
+	Wraps  []string // names of the sentinel globals the error is or wraps (%w)
 }
 
 // errorsLeaving collects the error values returned (as failures) by fn and, transitively, by the kevo callees whose error
@@ -74,6 +75,22 @@ func (c *Ctx) errorsLeaving(fn *ssa.Function, seen map[*ssa.Function]bool) []err
 	if k < 0 {
 		return nil
 	}
+	for _, ret := range Returns(fn) {
+		if ClassifyReturn(ret) == ExitSuccess {
+			continue
+		}
+		out = append(out, c.errorsOfValueSeen(fn, ReturnValue(ret, k), ret, seen)...)
+	}
+	return out
+}
+
+// errorsOfValue: the error values an expression of fn can denote (sentinels, fmt.Errorf texts, pass-through of callees).
+func (c *Ctx) errorsOfValue(fn *ssa.Function, v ssa.Value, at ssa.Instruction) []errClass {
+	return c.errorsOfValueSeen(fn, v, at, map[*ssa.Function]bool{fn: true})
+}
+
+func (c *Ctx) errorsOfValueSeen(fn *ssa.Function, v0 ssa.Value, at0 ssa.Instruction, seen map[*ssa.Function]bool) []errClass {
+	var out []errClass
 	var resolve func(v ssa.Value, at ssa.Instruction, d int)
 	resolve = func(v ssa.Value, at ssa.Instruction, d int) {
 		if d > 6 || v == nil {
@@ -85,7 +102,7 @@ func (c *Ctx) errorsLeaving(fn *ssa.Function, seen map[*ssa.Function]bool) []err
 		}
 		if g := globalLoad(v); g != nil {
 			t := c.sentinelText(g)
-			out = append(out, errClass{Text: t, IsEOF: g.Pkg.Pkg.Path() == "io" && g.Name() == "EOF", IsUEOF: g.Name() == "ErrUnexpectedEOF", Pos: c.InsPos(at), From: FnName(fn)})
+			out = append(out, errClass{Text: t, IsEOF: g.Pkg.Pkg.Path() == "io" && g.Name() == "EOF", IsUEOF: g.Name() == "ErrUnexpectedEOF", Pos: c.InsPos(at), From: FnName(fn), Wraps: []string{g.Name()}})
 			return
 		}
 		switch x := v.(type) {
@@ -112,6 +129,7 @@ func (c *Ctx) errorsLeaving(fn *ssa.Function, seen map[*ssa.Function]bool) []err
 				format, _ := constString(x.Call.Args[0])
 				text := format
 				isU := false
+				var wraps []string
 				// operands
 				if len(x.Call.Args) > 1 {
 					for _, el := range sliceLiteralElems(x.Call.Args[1]) {
@@ -120,11 +138,14 @@ func (c *Ctx) errorsLeaving(fn *ssa.Function, seen map[*ssa.Function]bool) []err
 							if g.Name() == "ErrUnexpectedEOF" {
 								isU = true
 							}
+							if strings.Contains(text, "%w") {
+								wraps = append(wraps, g.Name())
+							}
 							text = strings.Replace(text, "%w", t, 1)
 						}
 					}
 				}
-				out = append(out, errClass{Text: text, IsUEOF: isU, Pos: c.InsPos(at), From: FnName(fn)})
+				out = append(out, errClass{Text: text, IsUEOF: isU, Pos: c.InsPos(at), From: FnName(fn), Wraps: wraps})
 				return
 			}
 			if staticName(x) == "errors.New" {
@@ -139,12 +160,7 @@ func (c *Ctx) errorsLeaving(fn *ssa.Function, seen map[*ssa.Function]bool) []err
 			}
 		}
 	}
-	for _, ret := range Returns(fn) {
-		if ClassifyReturn(ret) == ExitSuccess {
-			continue
-		}
-		resolve(ReturnValue(ret, k), ret, 0)
-	}
+	resolve(v0, at0, 0)
 	return out
 }
 
@@ -168,44 +184,8 @@ func ruleWalErrorClasses(c *Ctx, r *Reporter) {
 			r.Unresolved("wal.ReplayWALFile / WAL.getEntriesFromFile", "not found")
 			continue
 		}
-		// predicates of the loop
-		var substrings []string
-		handlesEOF, handlesUEOF := false, false
-		AllInstrs(loopFn, false, func(_ *ssa.Function, ins ssa.Instruction) {
-			switch x := ins.(type) {
-			case *ssa.Call:
-				if staticName(x) == "strings.Contains" {
-					if s, ok := constString(x.Call.Args[1]); ok {
-						substrings = append(substrings, s)
-					}
-				}
-				if staticName(x) == "errors.Is" && len(x.Call.Args) == 2 {
-					if g := globalLoad(x.Call.Args[1]); g != nil {
-						if g.Name() == "ErrUnexpectedEOF" {
-							handlesUEOF = true
-						}
-						if g.Name() == "EOF" {
-							handlesEOF = true
-						}
-					}
-				}
-			case *ssa.BinOp:
-				if x.Op == token.EQL || x.Op == token.NEQ {
-					for _, o := range []ssa.Value{x.X, x.Y} {
-						if g := globalLoad(o); g != nil && g.Pkg != nil && g.Pkg.Pkg.Path() == "io" {
-							if g.Name() == "EOF" {
-								handlesEOF = true
-							}
-							if g.Name() == "ErrUnexpectedEOF" {
-								handlesUEOF = true
-							}
-						}
-					}
-				}
-			}
-		})
-		sort.Strings(substrings)
-		r.Notes = append(r.Notes, fmt.Sprintf("C10 %s classifies: ==io.EOF:%v errors.Is(ErrUnexpectedEOF):%v contains%v", FnName(loopFn), handlesEOF, handlesUEOF, substrings))
+		preds := c.errorPredicates(loopFn)
+		r.Notes = append(r.Notes, fmt.Sprintf("C10 %s classifies: ==io.EOF:%v errors.Is(ErrUnexpectedEOF):%v contains%v is%v", FnName(loopFn), preds.eof, preds.ueof, preds.substrings, preds.sentinels))
 		var texts []string
 		for t := range uniq {
 			texts = append(texts, t)
@@ -213,24 +193,124 @@ func ruleWalErrorClasses(c *Ctx, r *Reporter) {
 		sort.Strings(texts)
 		for _, t := range texts {
 			e := uniq[t]
-			class := "fatal"
-			switch {
-			case e.IsEOF && handlesEOF:
-				class = "end-of-log"
-			case e.IsUEOF && handlesUEOF:
-				class = "end-of-log"
-			default:
-				for _, s := range substrings {
-					if strings.Contains(t, s) {
-						class = "skip"
-					}
-				}
-			}
+			class := preds.classify(e)
 			name := fmt.Sprintf("%s:%q", FnName(loopFn), t)
 			r.Check(class != "fatal", name, e.Pos, "classified "+class+" (raised in "+e.From+")",
 				"an error that log damage can produce ("+fmt.Sprintf("%q", t)+", raised in "+e.From+") matches none of the loop's predicates and is FATAL: recovery fails, every log file is moved to a backup directory and the engine opens empty")
 		}
 	}
+	// second level: what ReplayWALFile itself returns while it is handling a damaged record (the region behind its own
+	// 'skip' predicate) must be classified 'skip this file' by ReplayWALDir, not fatal
+	file := c.Func("pkg/wal", "", "ReplayWALFile")
+	dir := c.Func("pkg/wal", "", "ReplayWALDir")
+	if file == nil || dir == nil {
+		r.Unresolved("wal.ReplayWALFile / ReplayWALDir", "not found")
+		return
+	}
+	skipFact := func(cond ssa.Value) (bool, bool) {
+		call, ok := cond.(*ssa.Call)
+		if !ok {
+			return false, false
+		}
+		switch staticName(call) {
+		case "strings.Contains":
+			return true, false
+		case "errors.Is":
+			if g := globalLoad(call.Call.Args[1]); g != nil && g.Pkg != nil && strings.HasPrefix(g.Pkg.Pkg.Path(), modPath) {
+				return true, false
+			}
+		}
+		return false, false
+	}
+	dpreds := c.errorPredicates(dir)
+	r.Notes = append(r.Notes, fmt.Sprintf("C10 %s classifies: contains%v is%v", FnName(dir), dpreds.substrings, dpreds.sentinels))
+	k := errResultIndex(file)
+	nL2 := 0
+	for _, ret := range Returns(file) {
+		if ClassifyReturn(ret) == ExitSuccess || !GuardedBy(ret.Block(), skipFact) {
+			continue
+		}
+		for _, e := range c.errorsOfValue(file, ReturnValue(ret, k), ret) {
+			nL2++
+			class := dpreds.classify(e)
+			name := fmt.Sprintf("%s:%q", FnName(dir), e.Text)
+			r.Check(class != "fatal", name, e.Pos, "classified "+class+" (raised in "+e.From+" while handling a damaged record)",
+				"the error ReplayWALFile returns while it is handling a damaged record ("+fmt.Sprintf("%q", e.Text)+") matches none of ReplayWALDir's predicates and is FATAL there: one damaged file makes recovery fail, every log file — the undamaged ones included — is moved to a backup directory and the engine opens empty")
+		}
+	}
+	if nL2 == 0 {
+		r.Info(FnName(dir)+":second-level", c.FnPos(file), "ReplayWALFile returns no error from inside its damage-handling region")
+	}
+}
+
+type errPreds struct {
+	substrings, sentinels []string
+	eof, ueof             bool
+}
+
+// errorPredicates: the tests fn applies to error values (strings.Contains on the text, errors.Is / == against sentinels).
+func (c *Ctx) errorPredicates(fn *ssa.Function) errPreds {
+	var p errPreds
+	AllInstrs(fn, false, func(_ *ssa.Function, ins ssa.Instruction) {
+		switch x := ins.(type) {
+		case *ssa.Call:
+			if staticName(x) == "strings.Contains" {
+				if s, ok := constString(x.Call.Args[1]); ok {
+					p.substrings = append(p.substrings, s)
+				}
+			}
+			if staticName(x) == "errors.Is" && len(x.Call.Args) == 2 {
+				if g := globalLoad(x.Call.Args[1]); g != nil {
+					switch g.Name() {
+					case "ErrUnexpectedEOF":
+						p.ueof = true
+					case "EOF":
+						p.eof = true
+					default:
+						p.sentinels = append(p.sentinels, g.Name())
+					}
+				}
+			}
+		case *ssa.BinOp:
+			if x.Op == token.EQL || x.Op == token.NEQ {
+				for _, o := range []ssa.Value{x.X, x.Y} {
+					if g := globalLoad(o); g != nil && g.Pkg != nil && isErrorType(o.Type()) {
+						switch {
+						case g.Pkg.Pkg.Path() == "io" && g.Name() == "EOF":
+							p.eof = true
+						case g.Pkg.Pkg.Path() == "io" && g.Name() == "ErrUnexpectedEOF":
+							p.ueof = true
+						}
+					}
+				}
+			}
+		}
+	})
+	sort.Strings(p.substrings)
+	sort.Strings(p.sentinels)
+	return p
+}
+
+func (p errPreds) classify(e errClass) string {
+	switch {
+	case e.IsEOF && p.eof:
+		return "end-of-log"
+	case e.IsUEOF && p.ueof:
+		return "end-of-log"
+	}
+	for _, s := range p.substrings {
+		if strings.Contains(e.Text, s) {
+			return "skip"
+		}
+	}
+	for _, s := range p.sentinels {
+		for _, w := range e.Wraps {
+			if w == s {
+				return "skip"
+			}
+		}
+	}
+	return "fatal"
 }
 
 func ruleReuseValidatesTail(c *Ctx, r *Reporter) {
